@@ -443,11 +443,32 @@ def loop_obligations(world, prop):
             continue
         loops = [lp for lp in fi.loops if needle in lp['iter']]
         if not loops:
-            obs.append(Obligation(oid, prop, 'effects', LOST,
-                                  detail=f'per-source loop over "{needle}" not found',
-                                  functions=[fi.target]))
-            continue
+            # the iterable / loop variable may have been renamed: take the first top-level `for`
+            # of the function whose body appends to a list created before it
+            top = [st_ for st_ in fi.node.body if isinstance(st_, ast.For)]
+            for st_ in top:
+                if any(isinstance(x, ast.Call) and isinstance(x.func, ast.Attribute)
+                       and x.func.attr == 'append' for x in ast.walk(st_)):
+                    loops = [{'node': st_, 'iter': ast.unparse(st_.iter)}]
+                    break
         node = loops[0]['node']
+        # append-only accumulators: `x = []` before the loop, used in the loop only as x.append(..)
+        accs = set(accs)
+        for st_ in fi.node.body:
+            if st_ is node:
+                break
+            if isinstance(st_, ast.Assign) and isinstance(st_.value, ast.List) \
+                    and not st_.value.elts:
+                for t in st_.targets:
+                    if isinstance(t, ast.Name):
+                        uses = [x for x in ast.walk(node) if isinstance(x, ast.Name)
+                                and x.id == t.id]
+                        apps = [x for x in ast.walk(node) if isinstance(x, ast.Call)
+                                and isinstance(x.func, ast.Attribute) and x.func.attr == 'append'
+                                and isinstance(x.func.value, ast.Name)
+                                and x.func.value.id == t.id]
+                        if uses and len(uses) == len(apps):
+                            accs.add(t.id)
         read_first, written = _names_read_before_written(node.body)
         tnames = {n.id for n in ast.walk(node.target) if isinstance(n, ast.Name)}
         carried = set()
